@@ -47,6 +47,9 @@ inductive Frame where
   | iRegLocked (m r : Nat)             -- registration.setDelegate: holds r.unregMu       [gate point]
   | iUnlocked                          -- p.mtx released, still inside once.Do
   | iStore                             -- once.Do returned, before globalMeterProvider.Store
+  | cbRun (r o w : Nat)                -- the SDK, collecting for reader/collection o, is inside the wrapped callback of
+                                       -- registration r (`unwrapCallback`'s closure); w = the `obs` field of the
+                                       -- `*unwrapObs` that THIS invocation handed to the user function
 deriving DecidableEq, Repr
 
 inductive Act where
@@ -56,6 +59,8 @@ inductive Act where
   | addLoad (i v c : Nat)    -- Add/Record/Start(ctx c): `i.delegate.Load()`
   | addFwd                   -- forward to the loaded delegate, or drop
   | reg (m : Nat)            -- RegisterCallback on placeholder meter m (whole critical section)
+  | regBad (m : Nat)         -- RegisterCallback on a NOT yet delegated placeholder meter m naming an observable the SDK will
+                             -- reject (an instrument of another meter): the placeholder accepts it silently
   | unregTake (r : Nat)      -- Unregister: Lock unregMu; unreg := c.unreg; c.unreg = nil; Unlock
   | unregCall                -- … then `unreg()` (closure: Lock m.mtx; registry.Remove; Unlock)
   | oUnregLock (r : Nat)     -- original Unregister: Lock unregMu (deferred unlock)
@@ -73,9 +78,25 @@ inductive Act where
   | instStore                -- globalMeterProvider.Store
   | selfSet                  -- SetMeterProvider(MeterProvider()) while the placeholder is still the global value:
                              -- `current == mp` guard: Error(…); return — before the once, nothing stored
+  | cbBegin (r o : Nat)      -- the SDK invokes the callback it was given for registration r, with the Observer of
+                             -- collection o: `unwrapCallback(f)(ctx, obs)` builds `&unwrapObs{obs: obs}` and calls f
+  | cbObserve (i v : Nat)    -- inside f: `uo.ObserveInt64(inst i, v)` = `uo.obs.ObserveInt64(unwrap(inst i), v)`
+  | cbEnd                    -- f returns
 deriving DecidableEq, Repr
 
 def upd {α : Type} (f : Nat → α) (k : Nat) (v : α) : Nat → α := fun x => if x = k then v else f x
+
+/-- one observation made by the user function of registration `r` while it ran on behalf of collection `coll`:
+it was delivered to the Observer of collection `target`, for instrument `inst` (`unwrapped` = the placeholder had a
+delegate, so the SDK saw its own instrument; otherwise the SDK sees a foreign instrument and drops the value) -/
+structure ObsEntry where
+  r : Nat
+  coll : Nat
+  target : Nat
+  inst : Nat
+  v : Nat
+  unwrapped : Bool
+deriving DecidableEq, Repr
 
 structure St where
   onceOwner : Option Nat := none
@@ -103,6 +124,16 @@ structure St where
   unregCalled : Nat → Bool := fun _ => false
   recorded : List (Nat × Nat) := []
   dropped : List (Nat × Nat) := []
+  /-- ghost: observations made inside forwarded callbacks, newest first -/
+  obsLog : List ObsEntry := []
+  /-- the SDK will reject this registration (`RegisterCallback` returns an error) -/
+  rBad : Nat → Bool := fun _ => false
+  /-- errors handed to the global error handler by `registration.setDelegate` -/
+  handled : Nat := 0
+  /-- variant switch (never changed by a label; `false` = the code as it is): the `*unwrapObs` is allocated once per
+  wrapped callback and its `obs` field (`rWrap r`) overwritten by every invocation — kept for the witness only -/
+  sharedWrap : Bool := false
+  rWrap : Nat → Nat := fun _ => 0
   frame : Nat → Frame := fun _ => .idle
 
 def St.init : St := {}
@@ -153,6 +184,14 @@ def step (old : Bool) (s : St) (t : Nat) (a : Act) : Option St :=
                       sdkUnreg := upd s.sdkUnreg s.nR 0, tok := upd s.tok s.nR false,
                       unregCalled := upd s.unregCalled s.nR false,
                       registry := upd s.registry m (s.registry m ++ [s.nR]) }
+    else none
+  | .regBad m =>
+    if s.frame t = .idle ∧ m < s.nM ∧ s.mOwner m = none ∧ s.mDel m = false then
+      some { s with nR := s.nR + 1, rMeter := upd s.rMeter s.nR m,
+                    rUnreg := upd s.rUnreg s.nR .closure, sdkReg := upd s.sdkReg s.nR 0,
+                    sdkUnreg := upd s.sdkUnreg s.nR 0, tok := upd s.tok s.nR false,
+                    unregCalled := upd s.unregCalled s.nR false, rBad := upd s.rBad s.nR true,
+                    registry := upd s.registry m (s.registry m ++ [s.nR]) }
     else none
   | .unregTake r =>
     if old = false ∧ s.frame t = .idle ∧ r < s.nR ∧ s.rOwner r = none then
@@ -236,6 +275,11 @@ def step (old : Bool) (s : St) (t : Nat) (a : Act) : Option St :=
         -- "Unregister already called."
         some { s with rOwner := upd s.rOwner r none, registry := upd s.registry m ((s.registry m).erase r),
                       frame := upd s.frame t (.iInsts m) }
+      else if s.rBad r then
+        -- the SDK rejects the registration: `GetErrorHandler().Handle(err); return` — `unreg` keeps the pre-delegation
+        -- closure, the element is removed from the registry all the same and the loop goes on with the next one
+        some { s with rOwner := upd s.rOwner r none, registry := upd s.registry m ((s.registry m).erase r),
+                      handled := s.handled + 1, frame := upd s.frame t (.iInsts m) }
       else
         some { s with rOwner := upd s.rOwner r none, registry := upd s.registry m ((s.registry m).erase r),
                       rUnreg := upd s.rUnreg r .sdk, sdkReg := upd s.sdkReg r (s.sdkReg r + 1),
@@ -264,6 +308,25 @@ def step (old : Bool) (s : St) (t : Nat) (a : Act) : Option St :=
     -- (Once the SDK is stored, `current` is no placeholder and the call is an ordinary second
     -- SetMeterProvider = `instBegin` on the fast path.)
     if s.frame t = .idle ∧ s.stored = false then some s else none
+  | .cbBegin r o =>
+    -- only a callback the SDK was given (registration.setDelegate or RegisterCallback on a delegated meter, both
+    -- through `unwrapCallback`) can be invoked; the SDK may invoke it from any number of collections at once
+    if s.frame t = .idle ∧ r < s.nR ∧ 1 ≤ s.sdkReg r then
+      if s.sharedWrap then some { s with rWrap := upd s.rWrap r o, frame := upd s.frame t (.cbRun r o o) }
+      else some { s with frame := upd s.frame t (.cbRun r o o) }
+    else none
+  | .cbObserve i v =>
+    match s.frame t with
+    | .cbRun r o w =>
+      if i < s.nI then
+        some { s with obsLog := { r := r, coll := o, target := if s.sharedWrap then s.rWrap r else w,
+                                  inst := i, v := v, unwrapped := s.iDel i } :: s.obsLog }
+      else none
+    | _ => none
+  | .cbEnd =>
+    match s.frame t with
+    | .cbRun _ _ _ => some { s with frame := upd s.frame t .idle }
+    | _ => none
 
 /-- states reachable in variant `old` -/
 inductive Reachable (old : Bool) : St → Prop where
